@@ -212,7 +212,10 @@ def addNewPeer (env : CryptoEnv) (o : Oracle) (c : Ctx) (now : Int) (a : NAddr) 
     let p : Peer := { addrs := info.addrs, crypto := pc, nodeId := info.nodeId,
                       peerTimeout := info.peerTimeout.getD Generated.DEFAULT_PEER_TIMEOUT, timeout := now + n.cfg.peerTimeout }
     let n1 := { n with pending := eraseA n.pending a, peers := insertA n.peers a p }
-    updatePeerInfo env o { c with node := n1 } now a (some info)
+    let c1 := updatePeerInfo env o { c with node := n1 } now a (some info)
+    -- `self.next_peers = min(self.next_peers, TS::now());` — the interval until the next peer list was chosen
+    -- without knowing this peer's timeout: send the next one right away
+    { c1 with node := { c1.node with nextPeers := min c1.node.nextPeers now } }
 
 /-- `remove_peer` -/
 def removePeer (c : Ctx) (now : Int) (a : NAddr) : Ctx :=
